@@ -270,6 +270,78 @@ theorem encodeEntriesCalls_eq (calls : V → Option (List Piece)) (len : V → N
     obtain ⟨_, hvs⟩ := valueCalls_flat calls es vs hvc
     simp only [callLayout, hvs]
 
+/-! ### Which error `compute_len` reports -/
+
+/-- The summation loop fails at the FIRST value that is too large, reporting its rank
+(as the `u32` the code casts it to) and its length. -/
+theorem sumLens_error_first (len : V → Nat) (es : List (Pair V)) (rank acc : Nat) (e : EncErr)
+    (h : sumLens len es rank acc = .error e) :
+    ∃ r p, es[r]? = some p ∧ len p.2 > i32Max ∧ (∀ j q, j < r → es[j]? = some q → len q.2 ≤ i32Max) ∧
+      e = .valueTooLarge ((rank + r) % 4294967296) (len p.2) := by
+  induction es generalizing rank acc with
+  | nil => simp [sumLens] at h
+  | cons x xs ih =>
+    unfold sumLens at h
+    by_cases hx : len x.2 > i32Max
+    · simp only [hx, if_true, Except.error.injEq] at h
+      exact ⟨0, x, rfl, hx, by intro j q hj; omega, by simp [← h]⟩
+    · simp only [hx, if_false] at h
+      obtain ⟨r, p, h1, h2, h3, h4⟩ := ih _ _ h
+      refine ⟨r + 1, p, by simpa using h1, h2, ?_, ?_⟩
+      · intro j q hj hq
+        cases j with
+        | zero => simp only [List.getElem?_cons_zero, Option.some.injEq] at hq; subst hq; omega
+        | succ j => exact h3 j q (by omega) (by simpa using hq)
+      · rw [h4]; congr 2; omega
+
+/-- `compute_len`'s error, completely: too many elements first; else the first value
+that is too large; else the (saturated) total. -/
+theorem computeLen_error_kind (len : V → Nat) (es : List (Pair V)) (e : EncErr)
+    (h : computeLen len es = .error e) :
+    (es.length > i32Max ∧ e = .tooManyElements es.length) ∨
+    (es.length ≤ i32Max ∧ ∃ r p, es[r]? = some p ∧ len p.2 > i32Max ∧
+      (∀ j q, j < r → es[j]? = some q → len q.2 ≤ i32Max) ∧
+      e = .valueTooLarge (r % 4294967296) (len p.2)) ∨
+    (es.length ≤ i32Max ∧ (∀ p ∈ es, len p.2 ≤ i32Max) ∧ natTotal len es > i32Max ∧
+      e = .totalTooLarge (es.length % 4294967296) (min (natTotal len es) usizeMax)) := by
+  unfold computeLen at h
+  by_cases hn : es.length > i32Max
+  · simp only [hn, if_true, Except.error.injEq] at h
+    exact Or.inl ⟨hn, h.symm⟩
+  · simp only [hn, if_false] at h
+    right
+    cases hs : sumLens len es 0 0 with
+    | error e' =>
+      simp only [hs, Except.error.injEq] at h
+      subst h
+      obtain ⟨r, p, h1, h2, h3, h4⟩ := sumLens_error_first len es 0 0 e' hs
+      exact Or.inl ⟨by omega, r, p, h1, h2, h3, by simpa using h4⟩
+    | ok total =>
+      right
+      have hv : ∀ p ∈ es, len p.2 ≤ i32Max := by
+        intro p hp
+        by_cases hpl : len p.2 > i32Max
+        · obtain ⟨_, _, he⟩ := sumLens_err len es ⟨p, hp, hpl⟩ 0 0
+          rw [he] at hs; cases hs
+        · omega
+      have := sumLens_ok len es hv 0 0
+      simp only [show min 0 usizeMax = 0 by simp [usizeMax]] at this
+      rw [this] at hs
+      simp only [Except.ok.injEq] at hs
+      subst hs
+      simp only [this] at h
+      have hret : satAddUsize (satAddUsize (satAddUsize 4 (satMulUsize (es.length - 1) 4))
+          (satMulUsize es.length 4)) (min (0 + lensSum len es) usizeMax)
+          = min (natTotal len es) usizeMax := by
+        unfold satAddUsize satMulUsize natTotal usizeMax; omega
+      rw [hret] at h
+      by_cases ht : min (natTotal len es) usizeMax > i32Max
+      · simp only [ht, if_true, Except.error.injEq] at h
+        refine ⟨by omega, hv, ?_, h.symm⟩
+        unfold usizeMax i32Max at *; omega
+      · simp only [ht, if_false] at h
+        cases h
+
 /-! ### Lawful values at the call level -/
 
 /-- A value is lawful when the length it reports is the number of bytes its calls
